@@ -16,7 +16,7 @@
    escape sequence the look-ahead of the reference has to re-read; one step lemma per state.
    The per-character facts about the printers are finite statements over the 196608 code points
    0..0x2FFFF; they are checked by [vm_compute] over a complete binary-splitting enumeration
-   ([sweep], [all_chars]) and lifted by [all_chars_complete] (the bound is in its statement). *)
+   ([cp_sweep], [all_code_points]) and lifted by [all_code_points_complete] (the bound is in its statement). *)
 Require Import Base Literal.
 Open Scope N_scope.
 
@@ -162,24 +162,24 @@ Qed.
 
 (* ================================================================== take_hex *)
 
-Definition stops (r : list N) : Prop :=
+Definition hex_stops (r : list N) : Prop :=
   match r with [] => True | x :: _ => is_hex x = false end.
 
 Lemma take_hex_intro n h r : all_hex h ->
-  (length h = n \/ ((length h < n)%nat /\ stops r)) -> take_hex n (h ++ r) = (h, r).
+  (length h = n \/ ((length h < n)%nat /\ hex_stops r)) -> take_hex n (h ++ r) = (h, r).
 Proof.
   intros Hh. revert n. induction Hh as [| x h' Hx Hh' IH]; intros n Hn.
   - cbn [app length] in *. destruct Hn as [Hn | [Hn Hs]].
     + subst n. reflexivity.
     + destruct n; [lia|]. destruct r as [| y r']; [reflexivity|].
-      cbn [take_hex]. cbn [stops] in Hs. rewrite Hs. reflexivity.
+      cbn [take_hex]. cbn [hex_stops] in Hs. rewrite Hs. reflexivity.
   - cbn [app length] in *. destruct n as [| n]; [lia|].
     cbn [take_hex]. rewrite Hx. rewrite (IH n); [reflexivity|].
     destruct Hn as [Hn | [Hn Hs]]; [left; lia | right; split; [lia | exact Hs]].
 Qed.
 
 Lemma take_hex_elim n t h r : take_hex n t = (h, r) ->
-  t = h ++ r /\ all_hex h /\ (length h <= n)%nat /\ (length h = n \/ stops r).
+  t = h ++ r /\ all_hex h /\ (length h <= n)%nat /\ (length h = n \/ hex_stops r).
 Proof.
   revert t h r. induction n as [| n IH]; intros t h r H.
   - assert (E : h = [] /\ r = t) by (destruct t; cbn [take_hex] in H; inversion H; auto).
@@ -197,7 +197,7 @@ Proof.
         cbn [length]. destruct D as [D | D]; [left; lia | right; exact D].
       * inversion H; subst.
         split; [reflexivity|]. split; [constructor|]. split; [cbn [length]; lia|].
-        right. cbn [stops]. exact Hx.
+        right. cbn [hex_stops]. exact Hx.
 Qed.
 
 (* ================================================================== ref_go, unfolded *)
@@ -308,7 +308,7 @@ Proof.
 Qed.
 
 (* \ u and one to three hex digits, followed by no hex digit *)
-Lemma try_escape_slash_u_hex h tail : all_hex h -> (1 <= length h <= 3)%nat -> stops tail ->
+Lemma try_escape_slash_u_hex h tail : all_hex h -> (1 <= length h <= 3)%nat -> hex_stops tail ->
   try_escape (92 :: 117 :: h ++ tail) = None.
 Proof.
   intros Hh Hl Hs. unfold try_escape. cbn [N.eqb Pos.eqb andb].
@@ -333,7 +333,7 @@ Proof.
   intros Hh Hl Hs. unfold try_escape. cbn [N.eqb Pos.eqb andb].
   rewrite (take_hex_intro 5 h tail Hh).
   2:{ destruct (Nat.eq_dec (length h) 5) as [E | E]; [left; exact E | right; split; [lia|]].
-      destruct tail as [| x r]; [exact I|]. cbn [stops]. destruct Hs as [_ Hs].
+      destruct tail as [| x r]; [exact I|]. cbn [hex_stops]. destruct Hs as [_ Hs].
       destruct (is_hex x); [specialize (Hs eq_refl); lia | reflexivity]. }
   destruct h as [| y h']; [reflexivity|]. destruct tail as [| x r]; [reflexivity|].
   destruct Hs as [Hs _].
@@ -346,39 +346,39 @@ Qed.
 
 (* [pview p used]: the filled part of the 9-slot array is [used] *)
 Definition pview (p : pa) (used : list N) : Prop :=
-  exists rest, pend p = used ++ rest /\ (length used + length rest = 9)%nat /\ pidx p = length used.
+  exists rest, pa_buf p = used ++ rest /\ (length used + length rest = 9)%nat /\ pa_idx p = length used.
 
-Lemma upd_app used y rest x : upd (used ++ y :: rest) (length used) x = Some (used ++ x :: rest).
+Lemma upd_app used y rest x : lit_upd (used ++ y :: rest) (length used) x = Some (used ++ x :: rest).
 Proof.
   induction used as [| a u IH]; [reflexivity|].
-  cbn [app length upd]. rewrite IH. reflexivity.
+  cbn [app length lit_upd]. rewrite IH. reflexivity.
 Qed.
 
-Lemma pview_len p used : pview p used -> length (pend p) = 9%nat /\ pidx p = length used /\ (length used <= 9)%nat.
+Lemma pview_len p used : pview p used -> length (pa_buf p) = 9%nat /\ pa_idx p = length used /\ (length used <= 9)%nat.
 Proof.
   intros (rest & A & B & C). rewrite A, app_length. repeat split; [exact B | exact C | lia].
 Qed.
 
 Lemma pview_nil st sf pe ec : length pe = 9%nat -> pview (mkpa st sf pe 0 ec) [].
-Proof. intros H. exists pe. cbn [pend pidx app length]. repeat split; auto. Qed.
+Proof. intros H. exists pe. cbn [pa_buf pa_idx app length]. repeat split; auto. Qed.
 
 Lemma pending_view p used x : pview p used -> (length used < 9)%nat ->
-  exists a, pending p x = Some (mkpa (pstate p) (so_far p) a (S (pidx p)) (ecode p)) /\
-            forall st sf ec, pview (mkpa st sf a (S (pidx p)) ec) (used ++ [x]).
+  exists a, pa_pending p x = Some (mkpa (pa_state p) (pa_so_far p) a (S (pa_idx p)) (pa_code p)) /\
+            forall st sf ec, pview (mkpa st sf a (S (pa_idx p)) ec) (used ++ [x]).
 Proof.
-  intros (rest & A & B & C) Hl. unfold pending.
-  destruct (Nat.ltb_spec (pidx p) 9) as [Hi | Hi]; [| lia].
+  intros (rest & A & B & C) Hl. unfold pa_pending.
+  destruct (Nat.ltb_spec (pa_idx p) 9) as [Hi | Hi]; [| lia].
   destruct rest as [| y rest']; [cbn [length] in B; lia|].
   rewrite A, C, upd_app. cbn [bind]. eexists. split; [reflexivity|].
-  intros st sf ec. exists rest'. cbn [pend pidx]. rewrite <- app_assoc. cbn [app].
+  intros st sf ec. exists rest'. cbn [pa_buf pa_idx]. rewrite <- app_assoc. cbn [app].
   split; [reflexivity|]. rewrite app_length. cbn [length] in *. split; lia.
 Qed.
 
 Lemma flush_view p used : pview p used ->
-  flush_pending p = Some (mkpa LInit (so_far p ++ used) (pend p) 0 0).
+  pa_flush_pending p = Some (mkpa LInit (pa_so_far p ++ used) (pa_buf p) 0 0).
 Proof.
-  intros (rest & A & B & C). unfold flush_pending.
-  destruct (Nat.leb_spec (pidx p) (length (pend p))) as [Hi | Hi].
+  intros (rest & A & B & C). unfold pa_flush_pending.
+  destruct (Nat.leb_spec (pa_idx p) (length (pa_buf p))) as [Hi | Hi].
   2:{ rewrite A, app_length in Hi. lia. }
   rewrite C. rewrite A at 1. rewrite firstn_app, firstn_all, Nat.sub_diag. cbn [firstn].
   rewrite app_nil_r. reflexivity.
@@ -390,104 +390,104 @@ Qed.
    reading has got into a possible escape sequence *)
 Definition coh (p : pa) (used : list N) : Prop :=
   pview p used /\
-  match pstate p with
-  | LInit => used = [] /\ ecode p = 0
-  | LAfterSlash => used = [92] /\ ecode p = 0
-  | LAfterSlashU => used = [92; 117] /\ ecode p = 0
+  match pa_state p with
+  | LInit => used = [] /\ pa_code p = 0
+  | LAfterSlash => used = [92] /\ pa_code p = 0
+  | LAfterSlashU => used = [92; 117] /\ pa_code p = 0
   | LAfterSlashUHex =>
-      exists h, used = 92 :: 117 :: h /\ all_hex h /\ (1 <= length h <= 3)%nat /\ ecode p = hexvalue h
+      exists h, used = 92 :: 117 :: h /\ all_hex h /\ (1 <= length h <= 3)%nat /\ pa_code p = hexvalue h
   | LAfterSlashUBrace =>
-      exists h, used = 92 :: 117 :: 123 :: h /\ all_hex h /\ (length h <= 5)%nat /\ ecode p = hexvalue h
+      exists h, used = 92 :: 117 :: 123 :: h /\ all_hex h /\ (length h <= 5)%nat /\ pa_code p = hexvalue h
   end.
 
 (* what one step must establish: a new coherent configuration that accounts for the same
    reading of used ++ x :: r, for every continuation r *)
 Definition step_ok (p : pa) (used : list N) (x : N) (o : option pa) : Prop :=
   exists q used', o = Some q /\ coh q used' /\
-    forall r, so_far q ++ lit_parse_ref (used' ++ r) = so_far p ++ lit_parse_ref (used ++ x :: r).
+    forall r, pa_so_far q ++ lit_parse_ref (used' ++ r) = pa_so_far p ++ lit_parse_ref (used ++ x :: r).
 
-Lemma coh_init : coh new_automaton [].
+Lemma coh_init : coh new_parsing_automaton [].
 Proof. split; [apply pview_nil; reflexivity | split; reflexivity]. Qed.
 
 (* Init: consume *)
-Lemma consume_step p x : pstate p = LInit -> coh p [] -> step_ok p [] x (consume p x).
+Lemma consume_step p x : pa_state p = LInit -> coh p [] -> step_ok p [] x (pa_consume p x).
 Proof.
-  intros Hst [Hv Hc]. rewrite Hst in Hc. destruct Hc as [_ Hec]. unfold step_ok, consume.
+  intros Hst [Hv Hc]. rewrite Hst in Hc. destruct Hc as [_ Hec]. unfold step_ok, pa_consume.
   destruct (N.eqb_spec x 92) as [E | E].
   - subst x. destruct (pending_view p [] 92 Hv) as (a & Hp & Hq); [cbn [length]; lia|].
     rewrite Hp. cbn [bind]. eexists. exists [92]. split; [reflexivity|]. split.
-    + split; [apply (Hq LAfterSlash) | ]. cbn [set_state pstate ecode]. split; [reflexivity|].
+    + split; [apply (Hq LAfterSlash) | ]. cbn [pa_set_state pa_state pa_code]. split; [reflexivity|].
       exact Hec.
     + intros r. reflexivity.
-  - exists (push p x), []. split; [reflexivity|]. split.
-    + unfold push. destruct Hv as (rest & A & B & C). split.
-      * exists rest. cbn [pend pidx]. auto.
-      * cbn [pstate ecode]. rewrite Hst. split; [reflexivity|]. exact Hec.
-    + intros r. cbn [app push so_far]. rewrite ref_plain by (apply try_escape_not_bs; exact E).
+  - exists (pa_push p x), []. split; [reflexivity|]. split.
+    + unfold pa_push. destruct Hv as (rest & A & B & C). split.
+      * exists rest. cbn [pa_buf pa_idx]. auto.
+      * cbn [pa_state pa_code]. rewrite Hst. split; [reflexivity|]. exact Hec.
+    + intros r. cbn [app pa_push pa_so_far]. rewrite ref_plain by (apply try_escape_not_bs; exact E).
       rewrite <- app_assoc. reflexivity.
 Qed.
 
 (* flush_pending; consume(x): the pending characters were no escape sequence and are copied *)
 Lemma flush_consume_step p used x : coh p used ->
   (forall r, lit_parse_ref (used ++ x :: r) = used ++ lit_parse_ref (x :: r)) ->
-  step_ok p used x (do q <- flush_pending p; consume q x).
+  step_ok p used x (do q <- pa_flush_pending p; pa_consume q x).
 Proof.
   intros [Hv _] Hcopy. rewrite (flush_view p used Hv). cbn [bind].
   destruct (pview_len _ _ Hv) as (H9 & _ & _).
-  set (p0 := mkpa LInit (so_far p ++ used) (pend p) 0 0).
+  set (p0 := mkpa LInit (pa_so_far p ++ used) (pa_buf p) 0 0).
   assert (C0 : coh p0 []).
   { split; [apply pview_nil; exact H9 | split; reflexivity]. }
   destruct (consume_step p0 x eq_refl C0) as (q & used' & Hq & Hc & He).
   exists q, used'. split; [exact Hq|]. split; [exact Hc|].
-  intros r. rewrite (He r). unfold p0. cbn [so_far app]. rewrite Hcopy, <- app_assoc. reflexivity.
+  intros r. rewrite (He r). unfold p0. cbn [pa_so_far app]. rewrite Hcopy, <- app_assoc. reflexivity.
 Qed.
 
 Lemma add_hex_view p used x : pview p used -> (length used < 9)%nat -> is_hex x = true ->
   exists a d, hexval x = Some d /\
-    add_hex p x = Some (mkpa (pstate p) (so_far p) a (S (pidx p)) (16 * ecode p + d)) /\
-    forall st sf ec, pview (mkpa st sf a (S (pidx p)) ec) (used ++ [x]).
+    pa_add_hex p x = Some (mkpa (pa_state p) (pa_so_far p) a (S (pa_idx p)) (16 * pa_code p + d)) /\
+    forall st sf ec, pview (mkpa st sf a (S (pa_idx p)) ec) (used ++ [x]).
 Proof.
   intros Hv Hl Hx. destruct (is_hex_val x Hx) as (d & Hd & Hd16).
-  unfold add_hex. rewrite Hd. cbn [bind].
-  set (p1 := mkpa (pstate p) (so_far p) (pend p) (pidx p) (N.lor (N.shiftl (ecode p) 4) d)).
+  unfold pa_add_hex. rewrite Hd. cbn [bind].
+  set (p1 := mkpa (pa_state p) (pa_so_far p) (pa_buf p) (pa_idx p) (N.lor (N.shiftl (pa_code p) 4) d)).
   assert (Hv1 : pview p1 used) by exact Hv.
   destruct (pending_view p1 used x Hv1 Hl) as (a & Hp & Hq).
   exists a, d. split; [reflexivity|]. split; [| exact Hq].
-  rewrite Hp. unfold p1. cbn [pstate so_far pidx ecode]. rewrite lor_shift by exact Hd16. reflexivity.
+  rewrite Hp. unfold p1. cbn [pa_state pa_so_far pa_idx pa_code]. rewrite lor_shift by exact Hd16. reflexivity.
 Qed.
 
 Lemma all_hex_snoc h x : all_hex h -> is_hex x = true -> all_hex (h ++ [x]).
 Proof. intros A B. apply Forall_app. split; [exact A | constructor; [exact B | constructor]]. Qed.
 
 (* AfterSlash *)
-Lemma step_after_slash p x : pstate p = LAfterSlash -> coh p [92] -> step_ok p [92] x (accept p x).
+Lemma step_after_slash p x : pa_state p = LAfterSlash -> coh p [92] -> step_ok p [92] x (pa_accept p x).
 Proof.
-  intros Hst Hc. unfold accept. rewrite Hst. destruct (N.eqb_spec x 117) as [E | E].
+  intros Hst Hc. unfold pa_accept. rewrite Hst. destruct (N.eqb_spec x 117) as [E | E].
   - subst x. destruct Hc as [Hv Hc]. rewrite Hst in Hc. destruct Hc as [_ Hec].
     destruct (pending_view p [92] 117 Hv) as (a & Hp & Hq); [cbn [length]; lia|].
     rewrite Hp. cbn [bind]. eexists. exists [92; 117]. split; [reflexivity|]. split.
-    + split; [apply (Hq LAfterSlashU)|]. cbn [set_state pstate ecode]. split; [reflexivity | exact Hec].
+    + split; [apply (Hq LAfterSlashU)|]. cbn [pa_set_state pa_state pa_code]. split; [reflexivity | exact Hec].
     + intros r. reflexivity.
   - apply flush_consume_step; [exact Hc|]. intros r.
     apply (ref_bs_copy [] (x :: r)); [constructor|]. apply try_escape_slash. exact E.
 Qed.
 
 (* AfterSlashU *)
-Lemma step_after_slash_u p x : pstate p = LAfterSlashU -> coh p [92; 117] ->
-  step_ok p [92; 117] x (accept p x).
+Lemma step_after_slash_u p x : pa_state p = LAfterSlashU -> coh p [92; 117] ->
+  step_ok p [92; 117] x (pa_accept p x).
 Proof.
-  intros Hst Hc. unfold accept. rewrite Hst.
+  intros Hst Hc. unfold pa_accept. rewrite Hst.
   assert (Hc' := Hc). destruct Hc' as [Hv Hc']. rewrite Hst in Hc'. destruct Hc' as [_ Hec].
   destruct (N.eqb_spec x 123) as [E | E].
   - subst x. destruct (pending_view p [92; 117] 123 Hv) as (a & Hp & Hq); [cbn [length]; lia|].
     rewrite Hp. cbn [bind]. eexists. exists [92; 117; 123]. split; [reflexivity|]. split.
-    + split; [apply (Hq LAfterSlashUBrace)|]. cbn [set_state pstate ecode].
+    + split; [apply (Hq LAfterSlashUBrace)|]. cbn [pa_set_state pa_state pa_code].
       exists []. split; [reflexivity|]. split; [constructor|]. split; [cbn [length]; lia | exact Hec].
     + intros r. reflexivity.
   - destruct (is_hex x) eqn:Hx.
     + destruct (add_hex_view p [92; 117] x Hv) as (a & d & Hd & Ha & Hq); [cbn [length]; lia | exact Hx |].
       rewrite Ha. cbn [bind]. eexists. exists [92; 117; x]. split; [reflexivity|]. split.
-      * split; [apply (Hq LAfterSlashUHex)|]. cbn [set_state pstate ecode].
+      * split; [apply (Hq LAfterSlashUHex)|]. cbn [pa_set_state pa_state pa_code].
         exists [x]. split; [reflexivity|]. split; [constructor; [exact Hx | constructor]|].
         split; [cbn [length]; lia|]. rewrite Hec. unfold hexvalue, hexfold. cbn [fold_left].
         rewrite Hd. reflexivity.
@@ -499,27 +499,27 @@ Proof.
 Qed.
 
 (* AfterSlashUHex *)
-Lemma step_after_slash_u_hex p x used : pstate p = LAfterSlashUHex -> coh p used ->
-  step_ok p used x (accept p x).
+Lemma step_after_slash_u_hex p x used : pa_state p = LAfterSlashUHex -> coh p used ->
+  step_ok p used x (pa_accept p x).
 Proof.
-  intros Hst Hc. unfold accept. rewrite Hst.
+  intros Hst Hc. unfold pa_accept. rewrite Hst.
   assert (Hc' := Hc). destruct Hc' as [Hv Hc']. rewrite Hst in Hc'.
   destruct Hc' as (h & Hu & Hh & Hl & Hec).
   destruct (pview_len _ _ Hv) as (H9 & Hidx & _).
   destruct (is_hex x) eqn:Hx.
   - destruct (add_hex_view p used x Hv) as (a & d & Hd & Ha & Hq);
       [subst used; cbn [length]; lia | exact Hx |].
-    rewrite Ha. cbn [bind pidx].
-    assert (Hval : 16 * ecode p + d = hexvalue (h ++ [x])).
+    rewrite Ha. cbn [bind pa_idx].
+    assert (Hval : 16 * pa_code p + d = hexvalue (h ++ [x])).
     { rewrite Hec. unfold hexvalue. rewrite (hexfold_snoc 0 h x d Hd). reflexivity. }
-    assert (Hlen : pidx p = (2 + length h)%nat) by (rewrite Hidx, Hu; reflexivity).
-    destruct (Nat.eqb_spec (S (pidx p)) 6) as [E6 | E6].
+    assert (Hlen : pa_idx p = (2 + length h)%nat) by (rewrite Hidx, Hu; reflexivity).
+    destruct (Nat.eqb_spec (S (pa_idx p)) 6) as [E6 | E6].
     + (* fourth digit: the escape sequence is complete *)
       eexists. exists []. split; [reflexivity|]. split.
-      * unfold close_escape_seq. cbn [so_far pend ecode].
+      * unfold pa_close_escape_seq. cbn [pa_so_far pa_buf pa_code].
         split; [apply pview_nil | split; reflexivity].
         destruct (pview_len _ _ (Hq LInit [] 0)) as (L & _ & _). exact L.
-      * intros r. unfold close_escape_seq. cbn [so_far pend ecode app].
+      * intros r. unfold pa_close_escape_seq. cbn [pa_so_far pa_buf pa_code app].
         rewrite Hval, Hu. cbn [app].
         replace (92 :: 117 :: h ++ x :: r) with ((92 :: 117 :: h ++ [x]) ++ r)
           by (cbn [app]; rewrite <- app_assoc; reflexivity).
@@ -530,11 +530,11 @@ Proof.
              [| apply all_hex_snoc; assumption | rewrite app_length; cbn [length]; lia].
            cbn [length]. rewrite app_length. cbn [length]. do 2 f_equal. lia.
     + eexists. exists (used ++ [x]). split; [reflexivity|]. split.
-      * split; [apply Hq|]. cbn [pstate ecode]. rewrite Hst.
+      * split; [apply Hq|]. cbn [pa_state pa_code]. rewrite Hst.
         exists (h ++ [x]). split; [rewrite Hu; reflexivity|].
         split; [apply all_hex_snoc; assumption|].
         split; [rewrite app_length; cbn [length]; lia | exact Hval].
-      * intros r. cbn [so_far]. rewrite <- app_assoc. reflexivity.
+      * intros r. cbn [pa_so_far]. rewrite <- app_assoc. reflexivity.
   - apply flush_consume_step; [exact Hc|]. intros r. rewrite Hu.
     apply (ref_bs_copy (117 :: h) (x :: r)).
     + constructor; [split; unfold MAXC; lia | apply all_hex_plain; exact Hh].
@@ -542,22 +542,22 @@ Proof.
 Qed.
 
 (* AfterSlashUBrace *)
-Lemma step_after_slash_u_brace p x used : pstate p = LAfterSlashUBrace -> coh p used ->
-  step_ok p used x (accept p x).
+Lemma step_after_slash_u_brace p x used : pa_state p = LAfterSlashUBrace -> coh p used ->
+  step_ok p used x (pa_accept p x).
 Proof.
-  intros Hst Hc. unfold accept. rewrite Hst.
+  intros Hst Hc. unfold pa_accept. rewrite Hst.
   assert (Hc' := Hc). destruct Hc' as [Hv Hc']. rewrite Hst in Hc'.
   destruct Hc' as (h & Hu & Hh & Hl & Hec).
   destruct (pview_len _ _ Hv) as (H9 & Hidx & _).
-  assert (Hlen : pidx p = (3 + length h)%nat) by (rewrite Hidx, Hu; reflexivity).
-  destruct ((x =? 125) && (3 <? pidx p)%nat && (ecode p <=? MAXC)) eqn:C1.
+  assert (Hlen : pa_idx p = (3 + length h)%nat) by (rewrite Hidx, Hu; reflexivity).
+  destruct ((x =? 125) && (3 <? pa_idx p)%nat && (pa_code p <=? MAXC)) eqn:C1.
   - (* closing brace after at least one digit, value in range *)
     apply andb_true_iff in C1. destruct C1 as [C1 C13]. apply andb_true_iff in C1.
     destruct C1 as [C11 C12].
     apply N.eqb_eq in C11. apply Nat.ltb_lt in C12. apply N.leb_le in C13. subst x.
     eexists. exists []. split; [reflexivity|]. split.
-    + unfold close_escape_seq. split; [apply pview_nil; exact H9 | split; reflexivity].
-    + intros r. unfold close_escape_seq. cbn [so_far app]. rewrite Hu, Hec.
+    + unfold pa_close_escape_seq. split; [apply pview_nil; exact H9 | split; reflexivity].
+    + intros r. unfold pa_close_escape_seq. cbn [pa_so_far app]. rewrite Hu, Hec.
       replace ((92 :: 117 :: 123 :: h) ++ 125 :: r) with ((92 :: 117 :: 123 :: h ++ [125]) ++ r)
         by (cbn [app]; rewrite <- app_assoc; reflexivity).
       rewrite (ref_escape (92 :: 117 :: 123 :: h ++ [125]) r (hexvalue h)).
@@ -566,17 +566,17 @@ Proof.
       * cbn [app]. rewrite <- app_assoc. cbn [app].
         rewrite try_escape_brace; [| exact Hh | lia | rewrite <- Hec; exact C13].
         cbn [length]. rewrite app_length. cbn [length]. do 2 f_equal. lia.
-  - destruct (is_hex x && (pidx p <? 8)%nat) eqn:C2.
+  - destruct (is_hex x && (pa_idx p <? 8)%nat) eqn:C2.
     + (* one more digit *)
       apply andb_true_iff in C2. destruct C2 as [Hx C22]. apply Nat.ltb_lt in C22.
       destruct (add_hex_view p used x Hv) as (a & d & Hd & Ha & Hq); [lia | exact Hx |].
       rewrite Ha. eexists. exists (used ++ [x]). split; [reflexivity|]. split.
-      * split; [apply Hq|]. cbn [pstate ecode]. rewrite Hst.
+      * split; [apply Hq|]. cbn [pa_state pa_code]. rewrite Hst.
         exists (h ++ [x]). split; [rewrite Hu; reflexivity|].
         split; [apply all_hex_snoc; assumption|].
         split; [rewrite app_length; cbn [length]; lia|].
         rewrite Hec. unfold hexvalue. rewrite (hexfold_snoc 0 h x d Hd). reflexivity.
-      * intros r. cbn [so_far]. rewrite <- app_assoc. reflexivity.
+      * intros r. cbn [pa_so_far]. rewrite <- app_assoc. reflexivity.
     + (* malformed or out of range: copied *)
       apply flush_consume_step; [exact Hc|]. intros r. rewrite Hu.
       apply (ref_bs_copy (117 :: 123 :: h) (x :: r)).
@@ -585,18 +585,18 @@ Proof.
       * cbn [app]. apply try_escape_slash_u_brace; [exact Hh | exact Hl |]. cbn [brace_stop]. split.
         -- intros (A & B & C).
            assert (T1 : (x =? 125) = true) by (apply N.eqb_eq; exact A).
-           assert (T2 : (3 <? pidx p)%nat = true) by (apply Nat.ltb_lt; lia).
-           assert (T3 : (ecode p <=? MAXC) = true) by (apply N.leb_le; rewrite Hec; exact C).
+           assert (T2 : (3 <? pa_idx p)%nat = true) by (apply Nat.ltb_lt; lia).
+           assert (T3 : (pa_code p <=? MAXC) = true) by (apply N.leb_le; rewrite Hec; exact C).
            rewrite T1, T2, T3 in C1. discriminate.
         -- intros Hx. rewrite Hx in C2. cbn [andb] in C2. apply Nat.ltb_ge in C2. lia.
 Qed.
 
 (* one lemma for all states *)
-Lemma accept_step p used x : coh p used -> step_ok p used x (accept p x).
+Lemma accept_step p used x : coh p used -> step_ok p used x (pa_accept p x).
 Proof.
-  intros Hc. destruct (pstate p) eqn:Hst.
+  intros Hc. destruct (pa_state p) eqn:Hst.
   - assert (E : used = []) by (destruct Hc as [_ Hc]; rewrite Hst in Hc; apply Hc). subst used.
-    unfold accept. rewrite Hst. apply consume_step; assumption.
+    unfold pa_accept. rewrite Hst. apply consume_step; assumption.
   - assert (E : used = [92]) by (destruct Hc as [_ Hc]; rewrite Hst in Hc; apply Hc). subst used.
     apply step_after_slash; assumption.
   - assert (E : used = [92; 117]) by (destruct Hc as [_ Hc]; rewrite Hst in Hc; apply Hc). subst used.
@@ -608,7 +608,7 @@ Qed.
 (* at the end of the text the pending characters are an incomplete escape sequence: copied *)
 Lemma ref_partial p used : coh p used -> lit_parse_ref used = used.
 Proof.
-  intros [_ Hc]. destruct (pstate p).
+  intros [_ Hc]. destruct (pa_state p).
   - destruct Hc as [E _]; subst. reflexivity.
   - destruct Hc as [E _]; subst.
     apply (ref_bs_copy [] []); [constructor | apply try_escape_slash; exact I].
@@ -627,41 +627,41 @@ Proof.
 Qed.
 
 Lemma run_ref t : forall p used, coh p used ->
-  exists q q', run p t = Some q /\ flush_pending q = Some q' /\
-               so_far q' = so_far p ++ lit_parse_ref (used ++ t).
+  exists q q', pa_run p t = Some q /\ pa_flush_pending q = Some q' /\
+               pa_so_far q' = pa_so_far p ++ lit_parse_ref (used ++ t).
 Proof.
   induction t as [| x r IH]; intros p used Hc.
   - exists p. eexists. split; [reflexivity|]. destruct Hc as [Hv Hc'].
-    split; [apply (flush_view p used Hv)|]. cbn [so_far]. rewrite app_nil_r.
+    split; [apply (flush_view p used Hv)|]. cbn [pa_so_far]. rewrite app_nil_r.
     rewrite (ref_partial p used); [reflexivity | split; assumption].
   - destruct (accept_step p used x Hc) as (q & used' & Hq & Hcq & He).
     destruct (IH q used' Hcq) as (q1 & q2 & R1 & R2 & R3).
-    exists q1, q2. cbn [run]. rewrite Hq. cbn [bind]. split; [exact R1|]. split; [exact R2|].
+    exists q1, q2. cbn [pa_run]. rewrite Hq. cbn [bind]. split; [exact R1|]. split; [exact R2|].
     rewrite R3. apply He.
 Qed.
 
 (* ------------------------------------------------------------------ C08: parsing *)
 Theorem parse_is_ref : forall text, parse_smt_literal text = Some (lit_parse_ref text).
 Proof.
-  intros t. destruct (run_ref t new_automaton [] coh_init) as (q & q' & R1 & R2 & R3).
+  intros t. destruct (run_ref t new_parsing_automaton [] coh_init) as (q & q' & R1 & R2 & R3).
   unfold parse_smt_literal. rewrite R1. cbn [bind]. rewrite R2. cbn [bind]. rewrite R3. reflexivity.
 Qed.
 
 (* ================================================================== complete enumeration of 0..0x2FFFF *)
 
 (* f holds on [lo, lo + 2^k): binary splitting (2^16 leaves per call below, never a unary number) *)
-Fixpoint sweep (f : N -> bool) (k : nat) (lo : N) : bool :=
+Fixpoint cp_sweep (f : N -> bool) (k : nat) (lo : N) : bool :=
   match k with
   | O => f lo
-  | S j => sweep f j lo && sweep f j (lo + N.shiftl 1 (N.of_nat j))
+  | S j => cp_sweep f j lo && cp_sweep f j (lo + N.shiftl 1 (N.of_nat j))
   end.
 
-Lemma sweep_complete f k : forall lo, sweep f k lo = true ->
+Lemma cp_sweep_complete f k : forall lo, cp_sweep f k lo = true ->
   forall x, lo <= x < lo + 2 ^ N.of_nat k -> f x = true.
 Proof.
   induction k as [| j IH]; intros lo H x Hx.
-  - cbn [sweep] in H. change (2 ^ N.of_nat 0) with 1 in Hx. replace x with lo by lia. exact H.
-  - cbn [sweep] in H. apply andb_true_iff in H. destruct H as [H1 H2].
+  - cbn [cp_sweep] in H. change (2 ^ N.of_nat 0) with 1 in Hx. replace x with lo by lia. exact H.
+  - cbn [cp_sweep] in H. apply andb_true_iff in H. destruct H as [H1 H2].
     rewrite N.shiftl_1_l in H2.
     rewrite Nat2N.inj_succ, N.pow_succ_r' in Hx.
     destruct (N.lt_ge_cases x (lo + 2 ^ N.of_nat j)) as [L | L].
@@ -669,20 +669,20 @@ Proof.
     + apply (IH _ H2). lia.
 Qed.
 
-Definition all_chars (f : N -> bool) : bool :=
-  sweep f 16 0 && sweep f 16 65536 && sweep f 16 131072.
+Definition all_code_points (f : N -> bool) : bool :=
+  cp_sweep f 16 0 && cp_sweep f 16 65536 && cp_sweep f 16 131072.
 
 (* 0x30000 = 3 * 2^16 *)
-Lemma all_chars_complete f : all_chars f = true -> forall x, x <= MAXC -> f x = true.
+Lemma all_code_points_complete f : all_code_points f = true -> forall x, x <= MAXC -> f x = true.
 Proof.
-  unfold all_chars, MAXC. intros H x Hx.
+  unfold all_code_points, MAXC. intros H x Hx.
   apply andb_true_iff in H. destruct H as [H H3]. apply andb_true_iff in H. destruct H as [H1 H2].
   change 65536 with (2 ^ N.of_nat 16) in *.
   destruct (N.lt_ge_cases x (2 ^ N.of_nat 16)) as [L | L].
-  { apply (sweep_complete f 16 0 H1). lia. }
+  { apply (cp_sweep_complete f 16 0 H1). lia. }
   destruct (N.lt_ge_cases x (2 ^ N.of_nat 16 + 2 ^ N.of_nat 16)) as [L2 | L2].
-  { apply (sweep_complete f 16 _ H2). lia. }
-  apply (sweep_complete f 16 131072 H3).
+  { apply (cp_sweep_complete f 16 _ H2). lia. }
+  apply (cp_sweep_complete f 16 131072 H3).
   change (2 ^ N.of_nat 16) with 65536 in *. lia.
 Qed.
 
@@ -756,11 +756,11 @@ Definition check_char (x : N) : bool :=
   (if x =? 34 then true else no_quote (fmt_char x)) &&
   reads_as (unq_char x) x.
 
-Lemma check_all_chars : all_chars check_char = true.
+Lemma check_all_code_points : all_code_points check_char = true.
 Proof. vm_compute. reflexivity. Qed.
 
 Lemma check_char_ok x : x <= MAXC -> check_char x = true.
-Proof. apply all_chars_complete. exact check_all_chars. Qed.
+Proof. apply all_code_points_complete. exact check_all_code_points. Qed.
 
 Lemma fmt_char_quote : fmt_char 34 = [34; 34].
 Proof. reflexivity. Qed.
@@ -797,13 +797,13 @@ Qed.
 
 (* ================================================================== Display *)
 
-Lemma body_display s : body (display s) = fmt_loop s.
-Proof. unfold display, body. cbn [app]. apply removelast_last. Qed.
+Lemma body_display s : lit_body (smt_display s) = fmt_loop s.
+Proof. unfold smt_display, lit_body. cbn [app]. apply removelast_last. Qed.
 
-Lemma undouble_no_quote l rest : ~ In 34 l -> undouble (l ++ rest) = l ++ undouble rest.
+Lemma undouble_no_quote l rest : ~ In 34 l -> lit_undouble (l ++ rest) = l ++ lit_undouble rest.
 Proof.
   induction l as [| c l' IH]; intros H; [reflexivity|].
-  cbn [app undouble]. destruct (N.eqb_spec c 34) as [E | E].
+  cbn [app lit_undouble]. destruct (N.eqb_spec c 34) as [E | E].
   - exfalso. apply H. left. exact E.
   - rewrite IH; [reflexivity|]. intros Hin. apply H. right. exact Hin.
 Qed.
@@ -811,11 +811,11 @@ Qed.
 Fixpoint unq_loop (s : word) : list N :=
   match s with [] => [] | x :: r => unq_char x ++ unq_loop r end.
 
-Lemma undouble_fmt_loop s : goodw s -> undouble (fmt_loop s) = unq_loop s.
+Lemma undouble_fmt_loop s : goodw s -> lit_undouble (fmt_loop s) = unq_loop s.
 Proof.
   intros H. induction H as [| x r Hx Hr IH]; [reflexivity|].
   cbn [fmt_loop unq_loop]. unfold unq_char. destruct (N.eqb_spec x 34) as [E | E].
-  - subst x. rewrite fmt_char_quote. cbn [app undouble N.eqb Pos.eqb]. rewrite IH. reflexivity.
+  - subst x. rewrite fmt_char_quote. cbn [app lit_undouble N.eqb Pos.eqb]. rewrite IH. reflexivity.
   - rewrite undouble_no_quote by (apply char_no_quote; assumption). rewrite IH. reflexivity.
 Qed.
 
@@ -828,9 +828,9 @@ Qed.
 (* ------------------------------------------------------------------ C08: printing *)
 
 (* printable ASCII only *)
-Theorem display_ascii : forall s, goodw s -> Forall (fun c => 32 <= c <= 126) (display s).
+Theorem display_ascii : forall s, goodw s -> Forall (fun c => 32 <= c <= 126) (smt_display s).
 Proof.
-  intros s H. unfold display. apply Forall_app. split; [constructor; [lia | constructor]|].
+  intros s H. unfold smt_display. apply Forall_app. split; [constructor; [lia | constructor]|].
   apply Forall_app. split; [| constructor; [lia | constructor]].
   induction H as [| x r Hx Hr IH]; [constructor|].
   cbn [fmt_loop]. apply Forall_app. split; [apply char_ascii; exact Hx | exact IH].
@@ -839,11 +839,11 @@ Qed.
 (* the printed form is: quote, one piece per character, quote; the piece of the double quote is
    two double quotes and no other piece contains a double quote *)
 Theorem display_quote : forall s, goodw s ->
-  exists pieces, display s = [34] ++ concat pieces ++ [34] /\
+  exists pieces, smt_display s = [34] ++ concat pieces ++ [34] /\
     Forall2 (fun x l => l = fmt_char x /\ (x = 34 -> l = [34; 34]) /\ (x <> 34 -> ~ In 34 l)) s pieces.
 Proof.
   intros s H. exists (map fmt_char s). split.
-  - unfold display. f_equal. f_equal. induction s as [| x r IH]; [reflexivity|].
+  - unfold smt_display. f_equal. f_equal. induction s as [| x r IH]; [reflexivity|].
     cbn [fmt_loop map concat]. inversion H; subst. rewrite IH by assumption. reflexivity.
   - induction H as [| x r Hx Hr IH]; [constructor|]. cbn [map]. constructor; [| exact IH].
     split; [reflexivity|]. split.
@@ -852,13 +852,13 @@ Proof.
 Qed.
 
 (* reading back the body of the printed form gives the string *)
-Theorem roundtrip : forall s, goodw s -> parse_smt_literal (undouble (body (display s))) = Some s.
+Theorem roundtrip : forall s, goodw s -> parse_smt_literal (lit_undouble (lit_body (smt_display s))) = Some s.
 Proof.
   intros s H. rewrite parse_is_ref, body_display, undouble_fmt_loop by exact H.
   rewrite ref_unq_loop by exact H. reflexivity.
 Qed.
 
-Theorem display_injective : forall s1 s2, goodw s1 -> goodw s2 -> display s1 = display s2 -> s1 = s2.
+Theorem display_injective : forall s1 s2, goodw s1 -> goodw s2 -> smt_display s1 = smt_display s2 -> s1 = s2.
 Proof.
   intros s1 s2 H1 H2 E. generalize (roundtrip s1 H1). rewrite E, (roundtrip s2 H2).
   intros X. inversion X. reflexivity.
@@ -1051,8 +1051,8 @@ Qed.
 
 (* the single-character printers round-trip as well *)
 Lemma char_roundtrip x : x <= MAXC ->
-  parse_smt_literal (undouble (char_to_smt x)) = Some [x] /\
-  parse_smt_literal (undouble (smt_char_as_string x)) = Some [x].
+  parse_smt_literal (lit_undouble (char_to_smt x)) = Some [x] /\
+  parse_smt_literal (lit_undouble (smt_char_as_string x)) = Some [x].
 Proof.
   intros Hx. change (char_to_smt x) with (fmt_char x). change (smt_char_as_string x) with (fmt_char x).
   assert (G : goodw [x]) by (constructor; [exact Hx | constructor]).
